@@ -388,3 +388,14 @@ func (db *SpecDB) LoadCatalog(dir string) error {
 	}
 	return nil
 }
+
+// describesFreshMemory: a postcondition mentions fresh(...), i.e. it states facts about memory the
+// callee allocates (a "modifies nothing" callee then still needs a post-state for those cells).
+func (ct *Contract) describesFreshMemory() bool {
+	for _, e := range ct.Ensures {
+		if strings.Contains(e.Src, "fresh(") {
+			return true
+		}
+	}
+	return false
+}
